@@ -501,7 +501,7 @@ impl<'r> Gen<'r> {
     /// way under every strategy.
     fn add_extended_op(&mut self, s: &mut Scope) -> bool {
         let io = self.int_only;
-        match self.r.below(24) {
+        match self.r.below(25) {
             0 | 1 => {
                 // the rest of the unary float family (one macro in rten, but one kernel each)
                 if io {
@@ -718,7 +718,8 @@ impl<'r> Gen<'r> {
                 // TopK: multi-output
                 let Some(x) = self.pick_val(s, |v| v.ty != Ty::B && !v.shape.is_empty() && v.numel() > 0) else { return false };
                 let axis = self.r.usize_below(x.shape.len());
-                let k = self.r.urange(1, x.shape[axis]);
+                // (a partial sort of a 40 000-element axis for thousands of winners takes a minute per run)
+                let k = self.r.urange(1, x.shape[axis].min(16));
                 let kname = self.scalar_i64(s, &[k as i64]);
                 let (o1, o2) = (self.fresh("v"), self.fresh("v"));
                 let largest = self.r.bool() as i64;
@@ -863,6 +864,42 @@ impl<'r> Gen<'r> {
                 let y = self.pick_val(s, |v| v.ty == x.ty && broadcast(&sh, &v.shape).is_some()).unwrap_or(x.clone());
                 let shape = broadcast(&sh, &y.shape).unwrap_or(sh);
                 self.emit(s, "Where", &[&c.name, &x.name, &y.name], x.ty, shape, vec![]);
+                true
+            }
+            23 => {
+                // Einsum with one and with several contracted labels
+                if io {
+                    return false;
+                }
+                let Some(x) = self.pick_val(s, |v| v.ty == Ty::F && (v.shape.len() == 2 || v.shape.len() == 3) && v.numel() > 0 && v.numel() <= 4096) else { return false };
+                if x.shape.len() == 3 {
+                    let (i, j, k) = (x.shape[0], x.shape[1], x.shape[2]);
+                    match self.r.below(3) {
+                        0 => {
+                            self.emit(s, "Einsum", &[&x.name], Ty::F, vec![i], vec![("equation", Attr::Str("ijk->i".into()))]);
+                        }
+                        1 => {
+                            let l = *self.r.pick(&[1usize, 2, 3]);
+                            let w = self.add_const(s, Ty::F, &[j, k, l]);
+                            self.emit(s, "Einsum", &[&x.name, &w.name], Ty::F, vec![i, l], vec![("equation", Attr::Str("ijk,jkl->il".into()))]);
+                        }
+                        _ => {
+                            let l = *self.r.pick(&[1usize, 2, 3]);
+                            let w = self.add_const(s, Ty::F, &[i, k, l]);
+                            self.emit(s, "Einsum", &[&x.name, &w.name], Ty::F, vec![i, j, l], vec![("equation", Attr::Str("bij,bjk->bik".into()))]);
+                        }
+                    }
+                } else {
+                    let (i, j) = (x.shape[0], x.shape[1]);
+                    if self.r.bool() {
+                        let k = *self.r.pick(&[1usize, 2, 3]);
+                        let w = self.add_const(s, Ty::F, &[j, k]);
+                        self.emit(s, "Einsum", &[&x.name, &w.name], Ty::F, vec![i, k], vec![("equation", Attr::Str("ij,jk->ik".into()))]);
+                    } else {
+                        let w = self.add_const(s, Ty::F, &[i, j]);
+                        self.emit(s, "Einsum", &[&x.name, &w.name], Ty::F, vec![], vec![("equation", Attr::Str("ij,ij->".into()))]);
+                    }
+                }
                 true
             }
             22 => {
